@@ -126,8 +126,9 @@ def structure(g):
 
 
 def units(tier):
-    n = 5 if tier == "quick" else 7
-    us = [{"kind": "shapes", "idx": list(range(i, len(SHAPES), 4)), "maxlen": n} for i in range(4)]
+    n = 5 if tier == "quick" else 8
+    k = 4 if tier == "quick" else len(SHAPES)
+    us = [{"kind": "shapes", "idx": list(range(i, len(SHAPES), k)), "maxlen": n} for i in range(k)]
     us.append({"kind": "greedy", "maxlen": n})
     us.append({"kind": "import", "maxlen": n})
     return us
